@@ -90,9 +90,9 @@ theorem link_binds_spec (p : GProg) (fuel m : Nat) (e : TExpr) (σ σ' : St) (lt
 typedef root the linker has stored is the declarative root. *Partial*: a typedef can also be
 left with a nil root — only by re-entrant linking (D10, `link_order_dependent`) — and nothing
 is claimed about such a typedef; the linked *values* of constants and defaults are tied to
-`castConst` by the correspondence harness (every generated program, every order), not by a
-theorem — the proof would need the static NoConstCycle argument that no constant is read
-while it is being linked (the ghost flag `St.reent` marks exactly those reads). With D10 repaired every root is non-nil and
+`castConst` by the correspondence harness (every generated program, every order) and not by
+a proof, which would need the static NoConstCycle argument that no constant is read while it
+is being linked (the ghost flag `St.reent` marks exactly those reads). With D10 repaired every root is non-nil and
 the hypothesis `alookup … = some (some r)` is always met. -/
 theorem link_refines_spec_partial {pre : Bool} {fuel : Nat} {o : Orders} {src : Program} {c : Compiled}
     (h : compileWith pre fuel o src = .ok c) :
